@@ -245,6 +245,11 @@ def _try_from(it, a, c):
         if not m: raise Unsupported('try conversion ' + inst)
         src, dst = m.group(1), m.group(2)
     dname = dst.split('::')[-1].strip()
+    ma = re.match(r'^\[(.+); (\d+)\]$', dst.strip())
+    if ma and isinstance(deref(a[0]), VecV):             # Vec<T> -> [T; N]: Ok iff the length is N, Err gives the vector back
+        v = deref(a[0])
+        if len(v.items) == int(ma.group(2)): return OK(Agg('array', list(v.items)))
+        return ERR(v)
     x = u(a[0]) if isinstance(deref(a[0]), Agg) else a[0]
     if dname in UBITS:
         bits = UBITS[dname]
